@@ -250,7 +250,13 @@ func H_catch_order() {
 	}
 	thrownNames := []string{"E1", "E2", "E3", "Exception", "E4"}
 	decl := "interface Tag {} interface Sub extends Tag {}\nclass E1 extends Exception implements Sub {} class E2 extends E1 {} class E3 extends Exception implements Tag {} class E4 extends E2 {}\n"
-	src := decl + "try { try { throw new " + thrownNames[thrown] + "(\"x\"); } catch (" + names[c1] + " $e) { mark(1); } catch (" + names[c2] + " $e) { mark(2); } } catch (Throwable $e) { mark(3); }\nmark(9);"
+	// the handlers either leave a marker or are EMPTY (an empty handler still consumes the throwable)
+	empty := symx.Choose("empty_handlers", 2) == 1
+	b1, b2 := "mark(1);", "mark(2);"
+	if empty {
+		b1, b2 = "", "/* nothing to do */"
+	}
+	src := decl + "try { try { throw new " + thrownNames[thrown] + "(\"x\"); } catch (" + names[c1] + " $e) { " + b1 + " } catch (" + names[c2] + " $e) { " + b2 + " } finally { mark(7); } } catch (Throwable $e) { mark(3); }\nmark(9);"
 	got, ok := runTrace(src)
 	symx.Assert(ok, "catch-order: runs to completion")
 	if !ok {
@@ -262,7 +268,20 @@ func H_catch_order() {
 	} else if isA[thrown][c2] {
 		want = 2
 	}
-	symx.Assert(len(got) == 2 && got[0] == want && got[1] == 9, "first matching catch clause in source order handles the throwable")
+	if empty {
+		if want == 3 {
+			symx.Assert(len(got) == 3 && got[0] == 7 && got[1] == 3 && got[2] == 9, "no clause matches: finally, then the enclosing handler")
+		} else {
+			symx.Assert(len(got) == 2 && got[0] == 7 && got[1] == 9, "an empty matching handler consumes the throwable (finally once, nothing reaches the enclosing try)")
+		}
+		symx.Reach("end")
+		return
+	}
+	if want == 3 {
+		symx.Assert(len(got) == 3 && got[0] == 7 && got[1] == 3 && got[2] == 9, "no clause matches: finally, then the enclosing handler")
+	} else {
+		symx.Assert(len(got) == 3 && got[0] == want && got[1] == 7 && got[2] == 9, "first matching catch clause in source order handles the throwable, then finally")
+	}
 	symx.Reach("end")
 }
 
